@@ -299,12 +299,19 @@ def beVal (b : Bytes) : Nat := b.foldl (fun a x => a * 256 + x) 0
 def widthOf (max : Nat) : Nat :=
   if max ≤ 255 then 1 else if max ≤ 65535 then 2 else if max ≤ 4294967295 then 4 else 6
 
-/-- `to_wire(origin=None)` of one field: a relative name cannot be encoded -/
-def encField : FK → FV → Option Bytes
+/-- `Name.to_wire(origin=…)`: a relative name needs an absolute origin, which is appended -/
+def encName (origin : Option Name) (n : Name) : Option Bytes :=
+  if isAbs n then some (toWire n)
+  else match origin with
+    | some o => if isAbs o then some (toWire (n ++ o)) else none
+    | none => none
+
+/-- `to_wire(origin=origin)` of one field -/
+def encField (origin : Option Name) : FK → FV → Option Bytes
   | .uint max, .n v => some (beBytes (widthOf max) v)
   | .oct16, .n v => some (beBytes 2 v)
   | .ttl, .n v => some (beBytes 4 v)
-  | .name, .nm n => if isAbs n then some (toWire n) else none
+  | .name, .nm n => encName origin n
   | .cstr _ _ _, .b s => some (s.length :: s)
   | .ip4, .b a => some a
   | .ip6, .b a => some a
@@ -316,14 +323,14 @@ def encField : FK → FV → Option Bytes
 def isRestField (tname : String) (idx : Nat) : Bool :=
   (tname == "CAA" && idx == 2) || (tname == "URI" && idx == 2)
 
-def encFields (tname : String) : Nat → List FK → List FV → Option Bytes
+def encFields (tname : String) (origin : Option Name) : Nat → List FK → List FV → Option Bytes
   | _, [], [] => some []
   | i, k :: ks, v :: vs =>
     let one : Option Bytes :=
       match k, v with
-      | .cstr _ _ _, .b s => if isRestField tname i then some s else encField k v
-      | _, _ => encField k v
-    match one, encFields tname (i + 1) ks vs with
+      | .cstr _ _ _, .b s => if isRestField tname i then some s else encField origin k v
+      | _, _ => encField origin k v
+    match one, encFields tname origin (i + 1) ks vs with
     | some a, some r => some (a ++ r)
     | _, _ => none
   | _, _, _ => none
@@ -336,21 +343,24 @@ def encTail : TK → Option FV → Option Bytes
   | .optCstr, some (.b s) => some (if s = [] then [] else s.length :: s)
   | _, _ => none
 
-def encRec (tname : String) (sch : Schema) (vals : List FV) (tail : Option FV) : Option Bytes :=
-  match encFields tname 0 sch.fields vals, encTail sch.tail tail with
+def encRec (tname : String) (sch : Schema) (origin : Option Name) (vals : List FV) (tail : Option FV) : Option Bytes :=
+  match encFields tname origin 0 sch.fields vals, encTail sch.tail tail with
   | some a, some b => some (a ++ b)
   | _, _ => none
 
-/-- `parser.get_name(origin)`: decode at `cur` inside the rdata, then `relativize(origin)` -/
+/-- `parser.get_name(origin)`: decode at `cur` inside the rdata, then `relativize(origin)` (`if origin:` — an empty
+name is falsy) -/
 def decName (w : Bytes) (cur : Nat) (origin : Option Name) : Option (Name × Nat) :=
   match fromWire w cur with
   | .error _ => none
   | .ok (n, used) =>
     match origin with
     | none => some (n, used)
-    | some o => match relativize n o with
-      | .ok m => some (m, used)
-      | .error _ => none
+    | some o =>
+      if o = [] then some (n, used)
+      else match relativize n o with
+        | .ok m => some (m, used)
+        | .error _ => none
 
 def decFields (tname : String) (w : Bytes) (origin : Option Name) : Nat → Nat → List FK → Option (List FV × Nat)
   | _, cur, [] => some ([], cur)
@@ -442,6 +452,10 @@ def isGenericStart : List Tok → Bool
   | t :: _ => t.kind == .ident && t.val == [92, 35]
   | [] => false
 
+/-- `wire_origin = (relativize_to or origin) if relativize else None` -/
+def wireOrigin (env : PEnv) : Option Name :=
+  if env.relativize then orOrigin env.relTo env.origin else none
+
 inductive Parsed where
   | known (vals : List FV) (tail : Option FV)
   | generic (data : Bytes)
@@ -463,11 +477,13 @@ def fromTextRdata (tname : Option String) (env : PEnv) (text : Text) : Option Pa
           match parseGeneric toks with
           | none => none
           | some data =>
-            match decRec tn sch data env.origin with
+            -- `fix:` commit 7f93d2c: names are relativized as the textual form would be, and the re-encode
+            -- check uses the same origin
+            match decRec tn sch data (wireOrigin env) with
             | none => none
             | some (vals, tail) =>
-              -- `rwire = rdata.to_wire()`; `rwire != grdata.data` ⇒ SyntaxError (compressed data)
-              match encRec tn sch vals tail with
+              -- `rwire = rdata.to_wire(origin=wire_origin)`; `rwire != grdata.data` ⇒ SyntaxError (compressed data)
+              match encRec tn sch (wireOrigin env) vals tail with
               | some w => if w = data then some (.known vals tail) else none
               | none => none
         else (parseRec sch env toks).map fun p => .known p.1 p.2
